@@ -54,6 +54,7 @@ from exabgp.configuration.l2vpn.parser import vpls_base
 from exabgp.configuration.l2vpn.parser import next_hop
 
 from exabgp.bgp.message.update.attribute import AttributeCollection
+from exabgp.bgp.message.update.collection import validate_announce_nlri
 from exabgp.rib.route import Route
 
 
@@ -336,6 +337,11 @@ class ParseVPLS(Section):
 
         # Create NLRI from settings (no mutation after this point)
         nlri = VPLS_NLRI.from_settings(settings)
+        # what the wire format generation would refuse (no nexthop) is refused here
+        error = validate_announce_nlri(nlri, settings.nexthop) if self.parser.tokeniser.announce else None
+        if error:
+            self.scope.clear_settings()
+            return self.error.set(error)
         route = Route(nlri, attributes, nexthop=settings.nexthop)
 
         # Append route and clear settings
